@@ -195,6 +195,9 @@ def handle (j : Json) : Except String Json := do
   | "rows_after" =>
     -- sequential rebuilds of one table: ops -> merged groups -> plan -> copy
     let aligned ← j.getObjValAs? Bool "aligned"
+    let embedCoalesces := (j.getObjValAs? Bool "embed_coalesces").toOption.getD DEvo.Generated.copyEmbedCoalesces
+    let flagPerItem := (j.getObjValAs? Bool "flag_per_item").toOption.getD DEvo.Generated.copyFlagPerItem
+    let cfg : Sql.CopyCfg := ⟨aligned, embedCoalesces, flagPerItem⟩
     let cols ← Codec.strList (← j.getObjVal? "cols")
     let rowsJ ← (← j.getObjVal? "rows").getArr?
     let rows : List Sql.Row ← rowsJ.toList.mapM (fun rj => do
@@ -238,7 +241,7 @@ def handle (j : Json) : Except String Json := do
     let step := fun (st : List String × List Sql.Row) (g : List (Sql.Op × List Sql.Item)) =>
       if g.any (fun oi => Sql.Op.needsRebuild Generated.rebuildItems oi.1) then
         let items := g.flatMap (·.2)
-        let p := Sql.plan aligned st.1 items
+        let p := Sql.plan cfg st.1 items
         let del := Sql.deletedCols items
         let added := items.filterMap (fun it => match it with
           | .addColumn c _ => if del.contains c then none else some c | _ => none)
